@@ -40,6 +40,9 @@ var (
 	ErrMessageTooLong = errors.New("message is too long")
 
 	ErrUnsupportedCompressor = errors.New("unsupported compressor")
+
+	// ErrMessageCorrupted a declared section length exceeds the frame
+	ErrMessageCorrupted = errors.New("message is corrupted: section length exceeds the frame")
 )
 
 const (
@@ -380,9 +383,13 @@ func decodeMetadata(l uint32, data []byte) (map[string]string, error) {
 	for n < l {
 		// parse one key and value
 		// key
+		if l-n < 4 {
+			return m, ErrMetaKVMissing
+		}
 		sl := binary.BigEndian.Uint32(data[n : n+4])
 		n = n + 4
-		if n+sl > l-4 {
+		// the key and the length of its value must fit
+		if sl > l-n || l-n-sl < 4 {
 			return m, ErrMetaKVMissing
 		}
 		k := string(data[n : n+sl])
@@ -391,7 +398,7 @@ func decodeMetadata(l uint32, data []byte) (map[string]string, error) {
 		// value
 		sl = binary.BigEndian.Uint32(data[n : n+4])
 		n = n + 4
-		if n+sl > l {
+		if sl > l-n {
 			return m, ErrMetaKVMissing
 		}
 		v := string(data[n : n+sl])
@@ -400,6 +407,21 @@ func decodeMetadata(l uint32, data []byte) (map[string]string, error) {
 	}
 
 	return m, nil
+}
+
+// readSection returns the section whose uint32 length is stored at data[n:], and the offset after it.
+// The returned slice is capped so that it can never reach beyond the section.
+func readSection(data []byte, n int) ([]byte, int, error) {
+	if len(data)-n < 4 {
+		return nil, n, ErrMessageCorrupted
+	}
+	l := int(binary.BigEndian.Uint32(data[n : n+4]))
+	n = n + 4
+	if l > len(data)-n {
+		return nil, n, ErrMessageCorrupted
+	}
+	nEnd := n + l
+	return data[n:nEnd:nEnd], nEnd, nil
 }
 
 // Read reads a message from r.
@@ -413,18 +435,18 @@ func Read(r io.Reader) (*Message, error) {
 }
 
 // Decode decodes a message from reader.
-func (m *Message) Decode(r io.Reader) error {
+func (m *Message) Decode(r io.Reader) (err error) {
 	defer func() {
-		if err := recover(); err != nil {
+		if e := recover(); e != nil {
 			var errStack = make([]byte, 1024)
 			n := runtime.Stack(errStack, true)
-			log.Errorf("panic in message decode: %v, stack: %s", err, errStack[:n])
-
+			log.Errorf("panic in message decode: %v, stack: %s", e, errStack[:n])
+			err = fmt.Errorf("panic in message decode: %v", e)
 		}
 	}()
 
 	// parse header
-	_, err := io.ReadFull(r, m.Header[:1])
+	_, err = io.ReadFull(r, m.Header[:1])
 	if err != nil {
 		return err
 	}
@@ -455,45 +477,49 @@ func (m *Message) Decode(r io.Reader) error {
 	} else {
 		m.data = make([]byte, totalL)
 	}
-	data := m.data
+	// the frame ends at totalL: no section may reach the spare capacity of a reused buffer
+	data := m.data[:totalL:totalL]
 	_, err = io.ReadFull(r, data)
 	if err != nil {
 		return err
 	}
 
 	n := 0
+	var section []byte
 	// parse servicePath
-	l = binary.BigEndian.Uint32(data[n:4])
-	n = n + 4
-	nEnd := n + int(l)
-	m.ServicePath = util.SliceByteToString(data[n:nEnd])
-	n = nEnd
+	section, n, err = readSection(data, n)
+	if err != nil {
+		return err
+	}
+	m.ServicePath = util.SliceByteToString(section)
 
 	// parse serviceMethod
-	l = binary.BigEndian.Uint32(data[n : n+4])
-	n = n + 4
-	nEnd = n + int(l)
-	m.ServiceMethod = util.SliceByteToString(data[n:nEnd])
-	n = nEnd
+	section, n, err = readSection(data, n)
+	if err != nil {
+		return err
+	}
+	m.ServiceMethod = util.SliceByteToString(section)
 
 	// parse meta
-	l = binary.BigEndian.Uint32(data[n : n+4])
-	n = n + 4
-	nEnd = n + int(l)
-
-	if l > 0 {
-		m.Metadata, err = decodeMetadata(l, data[n:nEnd])
+	section, n, err = readSection(data, n)
+	if err != nil {
+		return err
+	}
+	if len(section) > 0 {
+		m.Metadata, err = decodeMetadata(uint32(len(section)), section)
 		if err != nil {
 			return err
 		}
+	} else {
+		m.Metadata = nil
 	}
-	n = nEnd
 
 	// parse payload
-	l = binary.BigEndian.Uint32(data[n : n+4])
-	_ = l
-	n = n + 4
-	m.Payload = data[n:]
+	section, _, err = readSection(data, n)
+	if err != nil {
+		return err
+	}
+	m.Payload = section
 
 	if m.CompressType() != None {
 		compressor := Compressors[m.CompressType()]
@@ -506,7 +532,7 @@ func (m *Message) Decode(r io.Reader) error {
 		}
 	}
 
-	return err
+	return nil
 }
 
 // Reset clean data of this message but keep allocated data
